@@ -118,6 +118,9 @@ def gen(tier, rng, harness=None, driver=None):
     # inputs the parser accepts although LLVM would not: element annotations of an aggregate constant that differ from the element type of the aggregate
     # (they are kept as written); the printed text must still be a fixpoint
     from . import catalog as _cat
+    # integer literals that do NOT fit their type (accepted and kept as written) at values the printer spells in hexadecimal: the printed text is read back as the same value
+    for ty, v in (("i8", 4096), ("i8", 65535), ("i16", 2147483648), ("i1", 4096), ("i4", 61440), ("i32", 2**40), ("i63", 2**63), ("i64", 2**64), ("i8", -4096)):
+        lines.append("!mod.stable - %s" % hx("@g = global %s %d\n@v = global <2 x %s> <%s %d, %s 1>\n" % (ty, v, ty, ty, v, ty)))
     for t in ILL_TYPED_ACCEPTED + QUOTED_DIGIT_NAMES + ESCAPED_STRINGS + _cat.bare_digit_identifiers():
         lines.append("!mod.stable - %s" % hx(t))
     from . import metagen
